@@ -51,6 +51,40 @@ def confirm(prop, f, cldr):
         payload.update(extra)
         path = report.write_replay(prop, name, payload)
         return ("confirmed" if ok else "not_reproduced"), path
+    if f.kind == "scoped_keys_differ":
+        # natively: the same leaf read through scope_locale!(locale, prefix) and directly, for every locale
+        import subprocess
+        try:
+            h = json.loads(subprocess.run([hostrun.HOST_BIN, "eval", f.case.dir], capture_output=True, text=True, env=hostrun.ENV).stdout)
+        except Exception as e:
+            payload["replay_error"] = str(e)
+            return "unreplayable", report.write_replay(prop, name, payload)
+        prefix = list(f.key)
+        leafs = [k for k in h.get("keys", []) if k["path"][:len(prefix)] == prefix and k.get("kind") in ("builder", "lit") and len(k["path"]) == len(prefix) + 1]
+        reqs = []
+        for k in leafs[:3]:
+            if "fmt_" in json.dumps(k.get("string") or k.get("lit")):
+                continue
+            nums = {}
+            for fld in k.get("fields", []):
+                b = " ".join((k.get("bounds") or {}).get("__%s__" % fld, []))
+                if "InterpolateRangeCount<" in b:
+                    nums[fld] = {"ty": b.split("InterpolateRangeCount<")[1].split(">")[0], "v": 1}
+                elif "InterpolatePluralCount" in b:
+                    nums[fld] = {"ty": "plural", "v": 1}
+            for loc in h["locales"]:
+                base = {"locale": loc, "path": k["path"], "fields": k.get("fields", []), "strings": {}, "nums": nums}
+                reqs.append(dict(base))
+                reqs.append(dict(base, scope_depth=len(prefix)))
+        try:
+            outs = replay.run_requests(f.case.dir, reqs)
+        except replay.ReplayError as e:
+            payload["replay_error"] = str(e)[-1500:]
+            return "unreplayable", report.write_replay(prop, name, payload)
+        diffs = [{"request": reqs[i + 1], "direct": outs[i], "scoped": outs[i + 1]} for i in range(0, len(outs), 2) if outs[i] != outs[i + 1]]
+        payload["scoped_vs_direct"] = diffs[:6]
+        payload["how_to_replay"] = "td_string!(scope_locale!(Locale::x, %s), leaf) vs td_string!(Locale::x, %s.leaf) in the replay crate" % (".".join(prefix), ".".join(prefix))
+        return ("confirmed" if diffs else "not_reproduced"), report.write_replay(prop, name, payload)
     if f.kind in ("required_args_differ", "count_bound_differs", "generated_code_rejected_by_rustc"):
         # rustc is the oracle: a crate that expands load_locales!() on the project and supplies exactly the arguments the
         # source requires must compile
@@ -366,6 +400,7 @@ def run_property(prop, tier, seed, cases, mode, functions_encoded, bounds, extra
         "queries": stats.queries,
         "queries_unsat": stats.unsat,
         "queries_sat": stats.sat,
+        "scoped_key_structs_checked": getattr(stats, "scope_ok", None),
         "vacuity_twins": stats.twins,
         "vacuity_twins_sat": stats.twins_sat,
         "vacuity_twins_without_answer": getattr(stats, "twins_unknown", 0),
